@@ -17,6 +17,11 @@ func init() {
 	reg("time.Now", func(in *Interp, fn *ssa.Function, a []Value) (Value, *iPanic) {
 		k, _ := in.extra["nowCount"].(int)
 		in.extra["nowCount"] = k + 1
+		if in.opts["clock"] != 0 {
+			// concrete, strictly increasing clock (file names derived from it stay concrete)
+			unix := in.Prog.ImportedPackage("time").Func("Unix")
+			return in.callFn(unix, []Value{in.B.Int64(1600000000 + int64(k)), in.B.Int64(int64(k) + 1)}, nil)
+		}
 		// 2001-09-09 .. 2033-05-18, whole seconds + nanoseconds
 		sec := in.input(fmt.Sprintf("now_sec_%d", k), sym.SInt, big.NewInt(1000000000), big.NewInt(2000000000))
 		ns := in.input(fmt.Sprintf("now_nsec_%d", k), sym.SInt, big.NewInt(0), big.NewInt(999999999))
